@@ -160,7 +160,13 @@ def gen_case(c, g):
             # the list handed out by the pre_tasks property, and copy_dependencies (sets the task mark)
             fr = [a["n"] for a in desc["actions"] if a["a"] in ("seal", "submit")]
             marked = [j for j in range(n) if desc["nodes"][j]["cls"] in ("TaskOut",) and j in submitted]
-            if fr and light and c.rng.random() < 0.6:
+            containers = [(j, s_) for j in fr for s_, kd in SLOTS[desc["nodes"][j]["cls"]].items()
+                          if kd.lstrip("o").startswith(("l", "d")) and kd not in ("int", "int!") and s_ not in READONLY
+                          and kd.lstrip("o")[:1] in ("l", "d") and kd.lstrip("o") not in ("double",)]
+            if containers and c.rng.random() < 0.4:
+                j, s_ = c.rng.choice(containers)
+                ops.append(dict(op="inplace", n=j, name=s_))
+            elif fr and light and c.rng.random() < 0.6:
                 ops.append(dict(op="preappend", n=c.rng.choice(fr), ids=c.rng.sample(light, 1)))
             elif fr:
                 ops.append(dict(op="copydeps", n=c.rng.choice(fr), other=c.rng.randrange(n)))
@@ -190,7 +196,7 @@ def g_sop(o):
         return f"(SSetMeta {gnat(o['n'])} {gopt(o['flag'], gbool)})"
     if k in ("pre", "prefrom", "preappend"):
         return f"(SAddPre {gnat(o['n'])} {glist(gnat(i) for i in o.get('ids', []))})"
-    if k == "copydeps":      # tried on sealed roots only, where it is refused and changes nothing: as an empty add_pretasks attempt
+    if k in ("copydeps", "inplace"):      # tried on sealed roots only, where it is refused and changes nothing: as an empty add_pretasks attempt
         return f"(SAddPre {gnat(o['n'])} [])"
     if k == "resubmit":      # refused on a submitted (sealed) task and changes nothing: as an empty add_pretasks attempt
         return f"(SAddPre {gnat(o['n'])} [])"
@@ -250,7 +256,7 @@ def oracle(c, case, r):
         k = o["op"]
         if k not in ("copyconfig", "clone"):
             c.count("op:" + k + ("" if k in ("full", "raw", "jobpath", "seal") else (":frozen" if o["n"] in frozen else ":free")))
-        if k in ("assign", "meta", "pre", "prefrom", "resubmit", "preappend", "copydeps") and o["n"] in frozen and not a.startswith("rejected:"):
+        if k in ("assign", "meta", "pre", "prefrom", "resubmit", "preappend", "copydeps", "inplace") and o["n"] in frozen and not a.startswith("rejected:"):
             c.violation(f"C14:attempt-accepted:{k}", f"a {k} attempt on a frozen configuration was not rejected",
                         dict(desc=case["desc"], ops=case["ops"], op=o, answer=a))
         if k in ("copyconfig", "clone"):
